@@ -361,6 +361,15 @@ def corpus():
              [P, {"op": "hc", "ns": 1, "b": False}, P, {"op": "aux", "ns": 2}, P, {"op": "hc", "ns": 1, "b": True}, P], hs=True, hcs=(1, 2)),
         scen(2, T(2, [], code(form=6)), [], [P, {"op": "hyper", "b": True}, P, {"op": "aux", "ns": 3}, P, {"op": "hyper", "b": False}, P], hcs=(3,)),
         scen(0, T(0, [], code(form=6, kind=3)), [], [P, {"op": "hc", "ns": 1, "b": True}, P], hs=True),
+        # labels and annotations templated from a source: after the target exists, a source edit must reach data, labels AND
+        # annotations (rendered keys win); label / annotation keys only the existing target has are kept
+        scen(1, T(1, [S(1, 0, 1)], code(form=7)), [cm1], [P, put((1, 1, 1), [(1, 6)]), D, P]),
+        scen(1, T(1, [S(1, 0, 1), S(2, 0, 2, items=((1, 2),))], code(form=7)), [cm1, O((2, 1, 2), [(1, 8)])],
+             [P, put((2, 1, 2), [(1, 9)]), P, put((1, 1, 1), [(1, 4)]), P]),
+        scen(1, T(1, [S(1, 0, 1)], code(form=7)), [cm1, O((1, 1, 100), [(1, 1), (1001, 2), (1007, 3), (2001, 2), (2008, 4)], label=True, ctrl=1)],
+             [P, put((1, 1, 1), [(1, 6)]), P]),
+        scen(1, T(1, [S(1, 0, 1)], code(form=7)), [cm1],
+             [P, {"op": "tedit", "sources": [S(1, 0, 1, items=((1, 2),))], "code": code(form=7)}, P, put((1, 1, 100), [(2, 5), (1002, 9), (2002, 9)]), D]),
         # empty destination in a source item (was a panic before a818a7e): SourceError
         scen(1, T(1, [S(1, 0, 1, items=((1, 0),))], code()), [cm1], [P, P]),
         scen(1, T(1, [S(1, 0, 1, items=((1, 1), (1, 0)))], code()), [cm1], [P]),
@@ -428,7 +437,7 @@ def gen(seed, tier):
         return {"kind": kind, "ns": ns, "name": r.randint(1, 3), "opt": r.random() < 0.4, "items": items}
 
     def mk_code(tns):
-        form = r.choice([0] * 9 + [1] * 3 + [2] * 4 + [3] * 2 + [6] * 3 + [4, 5])
+        form = r.choice([0] * 7 + [7] * 5 + [1] * 3 + [2] * 4 + [3] * 2 + [6] * 3 + [4, 5])
         kind = r.choice([1] * 12 + [2] * 3 + [3] * 2 + [4])
         if tns:
             ns = r.choice([0] * 8 + [1, 1, 2])
@@ -471,7 +480,8 @@ def gen(seed, tier):
             seen.add(tuple(tk))
             conds = [{"type": r.randint(1, 2), "status": r.randint(0, 1), "obsgen": r.randint(1, 2), "bare": r.random() < 0.15}
                      for _ in range(r.choice([0, 1, 2]))]
-            store.append(O(tk, data(), label=r.random() < 0.65, lother=r.choice([0, 2, 3, 4]), ctrl=r.choice([0, 1, 1, 2]),
+            meta = sorted([1000 * c0 + k0, r.randint(1, 9)] for c0 in (1, 2) for k0 in (1, 2, 3, 7) if r.random() < 0.3)
+            store.append(O(tk, data() + meta, label=r.random() < 0.65, lother=r.choice([0, 2, 3, 4]), ctrl=r.choice([0, 1, 1, 2]),
                            gen=r.randint(1, 2), sobs=r.choice([None, 1, 2]), conds=conds))
         tm = T(tns, srcs, c)
         u = r.random()
@@ -621,8 +631,10 @@ def check(run, tier, seed, replay=None):
         "predicate and EnqueueWatchingObjects are the real code; that an enqueued request leads to a pass is controller-runtime's",
         "API server: the recording Store plus controller-runtime's treatment of cluster-scoped kinds (namespace not part of "
         "the request path for get/patch/update, BadRequest for a namespaced body on create/update)",
-        "templates are drawn from a fixed family of real Go templates (range over .config, .config.kN picks, index|default "
-        "picks, environment, unparsable text, non-YAML output); the theorems quantify over arbitrary render functions",
+        "templates are drawn from a fixed family of real Go templates (range over .config into data, the same also into labels and "
+        "annotations, .config.kN picks, index|default picks, environment, unparsable text, non-YAML output); the theorems quantify "
+        "over arbitrary render functions; object content is compared component-wise (data, labels, annotations); on the update path "
+        "label / annotation keys only the existing target has are kept, as labels.Merge(existing, rendered) does",
         "an environment change by itself schedules no pass (environment.Manager only calls SetEnvironment); the quiescence "
         "clause is stated for 'no later source or environment change'",
     ]
